@@ -818,6 +818,26 @@ impl Session {
         Some(exch_index)
     }
 
+    /// To be called right after a successful `pre_send` of a message built for the exchange:
+    /// a retransmission must carry the payload of the original transmission (it goes out
+    /// under the same message counter, i.e. the same nonce).
+    ///
+    /// Returns an error - and the message must then not be sent - when the message builder
+    /// produced something else than it did for the first transmission.
+    pub(crate) fn check_retrans_payload(
+        &mut self,
+        exch_index: usize,
+        payload_digest: u64,
+    ) -> Result<(), Error> {
+        let exchange = unwrap!(self.exchanges[exch_index].as_mut());
+
+        if let Some(retrans) = exchange.mrp.retrans.as_mut() {
+            retrans.check_payload_digest(payload_digest)?;
+        }
+
+        Ok(())
+    }
+
     pub(crate) fn remove_exch(&mut self, index: usize) -> bool {
         let exchange = unwrap!(self.exchanges[index].as_mut());
         let exchange_id = ExchangeId::new(self.id, index);
